@@ -23,8 +23,8 @@ CHECKS = {
 CHECKS.update({
  "C12": ("fault injection (panic / error in a generated hook invocation of one actor of a 2-4 actor system with peer asks/tells); every other monitor is applied to the whole system plus victim-specific checks, a fresh actor spawned afterwards, dead-letter accounting and (deadlock-detection build) wait-for-graph residue / mutex health", "5/C12"),
  "C13": ("generated operations against actors in every lifecycle state; dead-letter records captured by an in-process tracing subscriber are matched one-to-one (points-to-intervals matching) against failed operations: target id, message type name, reason <-> error kind, operation label; dead_letter_count() delta == number of failures; plus a generated real-thread experiment (2-16 OS threads x 50-450 failing operations each: counter delta == records == failures)", "5/C13"),
- "C14": ("generated ask topologies (cycles of length 1..5 through handlers and lifecycle hooks, ask and ask_with_timeout); logical wait-for graph of unanswered asks rebuilt from the trace; every ask that would close a cycle must panic naming every participant and nobody may be left waiting", "5/C14"),
- "C15": ("same topology generator, acyclic-in-time patterns with timeouts / cancellations / failures; every deadlock panic must be justified by a chain of unanswered asks; the real wait-for graph (verification hook) sampled at every odd virtual millisecond must equal the set of asks in flight", "5/C15"),
+ "C14": ("generated ask topologies (cycles of length 1..5 through handlers and lifecycle hooks, ask and ask_with_timeout); logical wait-for graph of unanswered asks rebuilt from the trace; every ask that would close a cycle must panic naming every participant and nobody may be left waiting; plus a real-thread ring experiment (k actors each asking the next from a handler, all k asks lined up at the same instant on different worker threads: every outer ask returns, every actor ends, a self-ask fails)", "5/C14"),
+ "C15": ("same topology generator, acyclic-in-time patterns with timeouts / cancellations / failures; every deadlock panic must be justified by a chain of unanswered asks; the real wait-for graph (verification hook) sampled at every odd virtual millisecond must equal the set of asks in flight; plus real-thread ring / line experiments (a line of asks started at the same instant must never panic; the real wait-for graph is empty after every round)", "5/C15"),
  "C16": ("metamorphic differential: each scenario run with plain handles and with every handle as a bundle of type-erased trait objects and every operation routed through a pseudo-randomly chosen equivalent erased path; canonical traces must be equal", "5/C16"),
  "C18": ("differential across builds: the same scenarios run by harness builds with each feature subset and by a default-feature reference process; per-task canonical traces must be identical for every case without a logical ask cycle", "5/C18"),
  "C19": ("generated programs (grammar over actor shape, generics, derive/manual, handler attribute x return spelling x message kind x parameter spelling, negative programs) compiled offline against the real macros and run; observations compared with the documented decision table; plus the runtime half (on_tell_result exactly once after tell, never after ask) in the simulator", "5/C19"),
